@@ -47,6 +47,8 @@ man = {
  "engines": [
    {"name": "bfs", "path": "harness/src/bfs.rs", "serves_properties": ["C01", "C03", "C06", "C09", "C16"], "kind_free_text": "level-synchronous explicit-state search over real transition functions, exact string keys, merge audit"},
    {"name": "choice-explorer", "path": "harness/src/choice.rs", "serves_properties": ["C05", "C07", "C11"], "kind_free_text": "deviation-bounded exhaustive exploration of environment answers (hash iteration order, BufRead behaviour)"},
+   {"name": "program-farm", "path": "harness/src/progfarm.rs + farm-template/", "serves_properties": ["C02", "C13"], "kind_free_text": "writes every distinct generated program as a Rust module, builds 16 shard binaries with cargo/rustc offline, runs them against their source documents"},
+   {"name": "cli-driver", "path": "harness/src/props/c12.rs", "serves_properties": ["C12"], "kind_free_text": "runs the real command-line binary over a finite product of inputs, flags and output targets"},
    {"name": "sweep", "path": "harness/src/par.rs + harness/src/docspace.rs", "serves_properties": ["C01", "C02", "C03", "C04", "C07", "C08", "C09", "C10", "C11", "C13", "C14", "C15"], "kind_free_text": "index-addressable bounded-exhaustive input spaces sharded over 16 workers"},
  ],
  "checks": [],
